@@ -88,12 +88,42 @@ def prior_activity(n):
     return keep
 
 
+def seeds_through_updater(case):
+    """the seeds of the model's streams as an experiment would install them: named streams, a StreamSeedUpdater
+    with a seed table for the first name and a user-defined, order-sensitive fallback updater (a master stream
+    hands out the seeds in the order in which update_seeds visits the streams = the listing order)"""
+    u = case.get("updater")
+    if not u:
+        return list(case["seeds"])
+    from pydsol.core.streams import MersenneTwister, StreamSeedUpdater, StreamUpdater
+    names = u["names"][:max(1, len(case["seeds"]))]
+    while len(names) < len(case["seeds"]):
+        names.append("stream-%d" % len(names))
+    streams = {}
+    for n, sd in zip(names, case["seeds"]):
+        streams[n] = MersenneTwister(sd)
+
+    class MasterUpdater(StreamUpdater):
+        def __init__(self, seed):
+            self.master = MersenneTwister(seed)
+
+        def update_seed(self, key, stream, replication_nr):
+            stream.set_seed(self.master.next_int(0, 2 ** 31) + replication_nr)
+
+    upd = StreamSeedUpdater({names[0]: [11, 22, 33, 44, 55]})
+    upd.set_fallback_stream_updater(MasterUpdater(u["master"]))
+    upd.update_seeds(streams, u["r"] % 5)
+    return [streams[n].seed() for n in names]
+
+
 def run_program(case, drive, twice=False):
     """drive: ["plain"] | ["pause", k] | ["bounded", frac] | ["steps", k]  -> digest dict.
     twice: the same simulator, model and (re-seeded) stream objects first run an earlier replication to its end"""
     from vlib.simharness import Recorder
     prog = case["prog"]
     h = Harness(prog)
+    if case.get("updater"):
+        case = dict(case, seeds=seeds_through_updater(case))
     install(h.model, case, reuse_streams=twice)
     try:
         h.initialize()
@@ -101,6 +131,30 @@ def run_program(case, drive, twice=False):
             h.run_piece(["start"])
             h.rec = Recorder()
             h.initialize()
+        starting_log = []
+        if drive[0] in ("slow-listener", "fast-listener"):
+            # two STARTING listeners: the first one is slow (it yields the processor n times) and then draws from a
+            # stream shared with the model; the second one looks whether the run has already begun.  The speed of
+            # a listener must not change the run.
+            import time as _t
+            from pydsol.core.pubsub import EventListener
+            from pydsol.core.interfaces import SimulatorInterface
+            model = h.model
+            n_yield = drive[1] if drive[0] == "slow-listener" else 0
+
+            class A(EventListener):
+                def notify(self, event):
+                    for _ in range(n_yield):
+                        _t.sleep(0)
+                    if model.streams:
+                        starting_log.append(["A", float(model.streams[0].next_float()).hex()])
+
+            class B(EventListener):
+                def notify(self, event):
+                    starting_log.append(["B", len(model.trace), sum(1 for e in h.rec.log if e[0] == "START")])
+            keep_listeners = (A(), B())
+            for l_ in keep_listeners:
+                h.sim.add_listener(SimulatorInterface.STARTING_EVENT, l_)
         if drive[0] == "pause":
             h.start_pause_after(drive[1], ["start"])
         elif drive[0] == "pause-other":
@@ -132,6 +186,8 @@ def run_program(case, drive, twice=False):
                 h.run_piece(["start"])
         d = stoch.full_digest(h)
         d["deliveries"] = h.model.deliveries
+        d["seeds_used"] = list(case["seeds"])
+        d["starting_listeners"] = starting_log
         # the pause/segmentation changes START/STOP notifications by design: normalise them away
         d["notifications"] = [e for e in d["notifications"] if e[0] in
                               ("START_REPLICATION", "TIME_CHANGED", "WARMUP", "END_REPLICATION")]
